@@ -5,8 +5,9 @@
 //!   (offset, type, window length) combination; result and byte-level bus trace are compared with
 //!   the Lean model and checked against the property text directly.
 //! * untorn reads: the real drivers (`VirtIOBlk::new`, `VirtIOSocket::new`, `VirtIOConsole::size`,
-//!   `VirtIONetRaw::new`, `VirtIO9p::new`) run on a `ModelTransport`, on the real MMIO transport
-//!   and on the real PCI transport while a scheduler changes the configuration (and bumps the
+//!   `VirtIONetRaw::new`, `VirtIO9p::new`) run on a `ModelTransport`, on the real modern MMIO
+//!   transport and on the real PCI transport (not on legacy MMIO: no generation register there)
+//!   while a scheduler changes the configuration (and bumps the
 //!   generation) at every position and every pair of positions between the individual reads.
 
 use crate::hal::{self, LedgerHal};
@@ -27,7 +28,7 @@ use virtio_drivers::transport::mmio::{MmioTransport, VirtIOHeader};
 use virtio_drivers::transport::pci::PciTransport;
 use virtio_drivers::transport::pci::bus::{ConfigurationAccess, DeviceFunction, PciRoot};
 use virtio_drivers::transport::{DeviceStatus, DeviceType, InterruptStatus, Transport};
-use virtio_drivers::{BufferDirection, Error, Hal, PhysAddr};
+use virtio_drivers::{Error, Hal, PhysAddr};
 use zerocopy::{FromBytes, Immutable, IntoBytes};
 
 pub const MMIO_BASE: usize = 0x5100_0000_0000;
@@ -341,45 +342,6 @@ pub fn make_pci(st: &Rc<RefCell<VState>>, devtype: u32, cfg_cap: Option<(u32, u3
         mmio::register(vaddr, len, name, dev);
     }
     Ok(t)
-}
-
-/// A minimal platform for *legacy* MMIO driver runs: DMA addresses low enough for a 32-bit page
-/// frame number (the ledger HAL's fake addresses start at 2^46 on purpose, which legacy
-/// `queue_set` must — and does — refuse). Identity `share`.
-pub struct LowHal;
-thread_local! {
-    static LOW: RefCell<Vec<(u64, *mut u8, usize)>> = const { RefCell::new(Vec::new()) };
-}
-pub fn low_reset() {
-    LOW.with(|l| {
-        for (_, p, pages) in l.borrow_mut().drain(..) {
-            // SAFETY: allocated below with this layout.
-            unsafe { std::alloc::dealloc(p, std::alloc::Layout::from_size_align(pages * 4096, 4096).unwrap()) };
-        }
-    });
-}
-// SAFETY: page-aligned zeroed memory that stays allocated until `low_reset`.
-unsafe impl Hal for LowHal {
-    fn dma_alloc(pages: usize, _direction: BufferDirection, _ap: bool) -> (PhysAddr, NonNull<u8>) {
-        LOW.with(|l| {
-            let mut l = l.borrow_mut();
-            // SAFETY: non-zero size.
-            let p = unsafe { std::alloc::alloc_zeroed(std::alloc::Layout::from_size_align(pages.max(1) * 4096, 4096).unwrap()) };
-            let paddr = 0x10_0000u64 * (l.len() as u64 + 1);
-            l.push((paddr, p, pages.max(1)));
-            (paddr, NonNull::new(p).unwrap())
-        })
-    }
-    unsafe fn dma_dealloc(_paddr: PhysAddr, _vaddr: NonNull<u8>, _pages: usize, _ap: bool) -> i32 {
-        0
-    }
-    unsafe fn mmio_phys_to_virt(_paddr: PhysAddr, _size: usize) -> NonNull<u8> {
-        NonNull::dangling()
-    }
-    unsafe fn share(buffer: NonNull<[u8]>, _direction: BufferDirection, _ap: bool) -> PhysAddr {
-        buffer.as_ptr() as *mut u8 as usize as u64
-    }
-    unsafe fn unshare(_paddr: PhysAddr, _buffer: NonNull<[u8]>, _direction: BufferDirection, _ap: bool) {}
 }
 
 // -------------------------------------------------------------------------------------------
@@ -849,19 +811,22 @@ impl<T: Transport> Transport for Ticking<T> {
 }
 
 #[derive(Clone, Copy, Debug, PartialEq, Eq)]
+/// Transports on which the untorn clause is claimed and checked. Legacy MMIO is deliberately
+/// absent: a legacy device has no configuration generation (`read_config_generation` is the constant
+/// 0 there, /repo 058e2dd), so `read_consistent` cannot detect a change — see
+/// `Props.C13.legacy_contract_unsatisfiable` / `legacy_read_can_tear`. Legacy MMIO stays in the
+/// bounds part.
 pub enum Tk {
     Model,
     MmioModern,
-    MmioLegacy,
     Pci,
 }
 impl Tk {
-    const ALL: [Tk; 4] = [Tk::Model, Tk::MmioModern, Tk::MmioLegacy, Tk::Pci];
+    const ALL: [Tk; 3] = [Tk::Model, Tk::MmioModern, Tk::Pci];
     fn name(self) -> &'static str {
         match self {
             Tk::Model => "model",
             Tk::MmioModern => "mmio2",
-            Tk::MmioLegacy => "mmio1",
             Tk::Pci => "pci",
         }
     }
@@ -880,11 +845,9 @@ struct RunOut {
 /// One driver run under one schedule on one transport.
 fn run_one(d: Drv, tk: Tk, len: usize, at: &[usize], gen0: u64) -> RunOut {
     hal::reset();
-    low_reset();
     mmio::reset();
     mmio::with(|b| b.budget = 200_000);
     let sched = Sched { tick: 0, at: at.to_vec(), cfgs: d.configs(len), cur: 0, applied: 0, gen0, m: tk.modulus(), len };
-    let legacy = tk == Tk::MmioLegacy;
     match tk {
         Tk::Model => {
             let sched = Rc::new(RefCell::new(sched));
@@ -900,13 +863,13 @@ fn run_one(d: Drv, tk: Tk, len: usize, at: &[usize], gen0: u64) -> RunOut {
                 Err(p) => RunOut { result: Err("panic".into()), ticks: s.tick, applied: s.applied, panicked: Some(p) },
             }
         }
-        Tk::MmioModern | Tk::MmioLegacy => {
-            let st = VState::new(if legacy { 1 } else { 2 }, d.devtype(), d.features(legacy), sched);
+        Tk::MmioModern => {
+            let st = VState::new(2, d.devtype(), d.features(false), sched);
             mmio::register(MMIO_BASE, 0x100 + len + SLACK, "mmio", Box::new(MmioFront(st.clone())));
             let r = guarded(|| {
                 // SAFETY: fake address; every access goes through the custom bus.
                 let t = unsafe { MmioTransport::new(NonNull::new(MMIO_BASE as *mut VirtIOHeader).unwrap(), 0x100 + len) }.map_err(|e| format!("probe:{:?}", e))?;
-                if legacy { drive::<LowHal, _>(d, t) } else { drive::<LedgerHal, _>(d, t) }
+                drive::<LedgerHal, _>(d, t)
             });
             let s = st.borrow();
             match r {
@@ -931,8 +894,8 @@ fn run_one(d: Drv, tk: Tk, len: usize, at: &[usize], gen0: u64) -> RunOut {
 
 fn consistent_case(ctx: &Ctx, idx: usize, id: String) -> Case {
     let d = Drv::ALL[idx % 5];
-    let tk = Tk::ALL[(idx / 5) % 4];
-    let variant = idx / 20; // window length / start generation variant
+    let tk = Tk::ALL[(idx / 5) % 3];
+    let variant = idx / 15; // window length / start generation variant
     let mut c = Case::new(id);
     c.tag(format!("untorn-{}", d.name()));
     c.tag(format!("on-{}", tk.name()));
@@ -1049,9 +1012,9 @@ pub fn run(ctx: &Ctx) -> (Vec<Case>, String, bool, BTreeMap<String, String>) {
     let lens = window_lengths(ctx.tier);
     let mut all = crate::runner::par_cases(ctx, "C13", "bounds-mmio", lens.len() * 4, |i, id| bounds_mmio(ctx, i, id));
     all.extend(crate::runner::par_cases(ctx, "C13", "bounds-pci", (lens.len() + 1) * 2, |i, id| bounds_pci(ctx, i, id)));
-    all.extend(crate::runner::par_cases(ctx, "C13", "untorn", 5 * 4 * 3, |i, id| consistent_case(ctx, i, id)));
+    all.extend(crate::runner::par_cases(ctx, "C13", "untorn", 5 * 3 * 3, |i, id| consistent_case(ctx, i, id)));
     let rule = format!(
-        "bounds: for each window length in {} (up to the largest config struct, virtio-input 136 bytes, +4) x {{MMIO legacy, MMIO modern}} x window base phase {{0,4}} mod 8, and PCI {{no device-config capability, capability length = each of those lengths}} x phase: every offset 0..=len+9 (quick tier: first/last 20 for long windows) plus offsets near usize::MAX, x {} types (sizes 0..128, alignments 1,2,4,8) x {{read, write}}; compared: result and byte-level bus trace; non-trivial = at least one access succeeded. untorn: 5 drivers x {{ModelTransport, MMIO modern, MMIO legacy, PCI}} x 3 variants (generation starts at 0 / wraps / short window); per case the undisturbed read is measured (n0 reads) and then re-run with a configuration change + generation bump before every read position 0..=2*n0+2, every pair of positions{}; non-trivial = a value was returned",
+        "bounds: for each window length in {} (up to the largest config struct, virtio-input 136 bytes, +4) x {{MMIO legacy, MMIO modern}} x window base phase {{0,4}} mod 8, and PCI {{no device-config capability, capability length = each of those lengths}} x phase: every offset 0..=len+9 (quick tier: first/last 20 for long windows) plus offsets near usize::MAX, x {} types (sizes 0..128, alignments 1,2,4,8) x {{read, write}}; compared: result and byte-level bus trace; non-trivial = at least one access succeeded. untorn: 5 drivers x {{ModelTransport, MMIO modern, PCI}} (legacy MMIO has no configuration generation and is excluded) x 3 variants (generation starts at 0 / wraps / short window); per case the undisturbed read is measured (n0 reads) and then re-run with a configuration change + generation bump before every read position 0..=2*n0+2, every pair of positions{}; non-trivial = a value was returned",
         if ctx.tier == Tier::Quick { "{0..20, 24, 59..61, 63, 64, 128, 135..137, 140}" } else { "0..=140" },
         TYPES.len(),
         if ctx.tier == Tier::Quick { " up to 14" } else { " and every triple up to 9" }
